@@ -290,8 +290,7 @@ def _check_invariance(ctx, case):
                 losses = np.asarray(pt.iter_losses, dtype=np.float64)
             if losses.shape != (1,):
                 _fail(case, "one epoch after reset recorded %d iteration losses" % losses.size)
-            bs = J if b is None else b
-            (tb, _vb), = _epochs(case, spy.take(), J, 1, bs)
+            (tb, _vb), = _epochs(case, spy.take(), J, 1, b)
             nb = len(tb)
             grads = {}
             for k in learn:
@@ -307,9 +306,18 @@ def _check_invariance(ctx, case):
                     grads["%s[%d]" % (k, j)] = np.mean(np.stack(gs).astype(np.complex128), axis=0)
             return float(losses[0]), grads, tb
 
-        L0, G0, tb0 = run(None)
+        # the full batch: batch_size = J (>= the number of training patterns).  Run twice: every run below
+        # starts from reset=True, so the comparison presupposes the property's own reset claim
+        L0, G0, tb0 = run(J)
+        L0b, G0b, tb0b = run(J)
         if len(tb0) != 1:
-            _fail(case, "batch_size=None ran %d training batches instead of one full batch" % len(tb0))
+            _fail(case, "batch_size=%d (all patterns) ran %d training batches instead of one" % (J, len(tb0)))
+        if float(L0).hex() != float(L0b).hex() or tb0 != tb0b or any(not np.array_equal(G0[k], G0b[k]) for k in G0):
+            _fail(
+                case,
+                "two consecutive reconstruct(num_iters=1, reset=True, batch_size=%d) runs of the same instance differ "
+                "(losses %.9g vs %.9g): reset does not restore the seeded initial state" % (J, L0, L0b),
+            )
         n_train = len(tb0[0])
         if n_train < 1:
             raise core.HarnessError("empty training set")
